@@ -177,3 +177,77 @@ def plugin_with_history(rnd):
     for cid in rnd.sample(['gdb_conn:0x10', 'gdb_conn:0x20', 'gdb_conn:0x30'], rnd.randint(0, 3)):
         p.open_connection(cid, rnd.choice([None, True, False]))
     return p
+
+
+# ---- a Python stand-in for the gdb.Value API used by extract.py (native side of C09)
+class FakeValue:
+    """int / str / float / indexing / member access / string() / cast() of a gdb.Value, over plain Python data"""
+    def __init__(self, data):
+        self.data = data
+    def __int__(self):
+        d = self.data
+        if d is None: return 0
+        if isinstance(d, (dict, list, str)): return 4096 + (id(d) % 1000)      # a non-null pointer
+        return int(d)
+    def __float__(self): return float(self.data)
+    def __str__(self): return str(self.data)
+    def string(self): return self.data
+    def __getitem__(self, k):
+        d = self.data
+        if isinstance(k, str) and isinstance(d, dict):
+            return FakeValue(d.get(k))
+        return FakeValue(d[k] if isinstance(d, (list, tuple)) and 0 <= k < len(d) else None)
+    def cast(self, t): return self
+    def field(self, key):
+        return FakeValue(self.data.get(key) if isinstance(self.data, dict) else None)
+
+
+def fake_closure(rnd):
+    """a random closure: signature over the type codes with version digits and ?; slots hold union members"""
+    codes = []
+    sig = rnd.choice(['', '2', '3'])
+    slots = []
+    types = []
+    for _ in range(rnd.randint(0, 5)):
+        if rnd.random() < 0.3:
+            sig += '?'
+        c = rnd.choice('iufsonah')
+        sig += c
+        slot = {}
+        ty = None
+        if c in 'iuh': slot[c] = rnd.randint(-5, 1000)
+        elif c == 'f': slot[c] = rnd.choice([256, -384, 1, 0])
+        elif c == 's': slot[c] = rnd.choice(['hello', 'a, b', None])
+        elif c == 'a':
+            n = rnd.randint(0, 3)
+            slot[c] = {'size': 4 * n, 'data': [rnd.randint(0, 99) for _ in range(n)]}
+        elif c == 'o':
+            ty = rnd.choice([None, {'name': 'wl_surface'}])
+            slot[c] = rnd.choice([None, {'wl_object.id': rnd.randint(1, 40)}])
+        elif c == 'n':
+            ty = rnd.choice([None, {'name': 'wl_callback'}])
+            slot[c] = rnd.randint(2, 40)
+            slot['o'] = {'wl_object.id': rnd.randint(2, 40)}
+        slots.append(slot)
+        types.append(ty)
+    closure = {'wl_closure.message': {'wl_message.name': rnd.choice(['commit', 'attach', 'done']), 'wl_message.signature': sig, 'wl_message.types': types},
+               'wl_closure.args': slots, 'wl_closure.sender_id': rnd.randint(1, 30)}
+    return FakeValue(closure)
+
+
+def install_fake_gdb():
+    """point the real extract.py at the stand-in API (native process only)"""
+    from pyvc import repo
+    m = repo.load('backends.gdb_plugin.extract')
+    class _T:
+        sizeof = 4
+        def pointer(self): return self
+    class _G:
+        def lookup_type(self, name): return _T()
+        def parse_and_eval(self, expr):
+            t = expr.split('+ ')[-1].split(')')[0]
+            v = 0 if t == 'None' else int(t)
+            return FakeValue(v / 256.0)
+    m.gdb = _G()
+    m._fast_access = lambda value, key: value.field(key)
+    return m
